@@ -155,6 +155,14 @@ def compare_seq(pid, si, sm):
                 if pd:
                     r.in_fp = True
                     r.diffs = pd
+            if not r.in_fp and pid is not None and P[pid].get("st_any"):
+                # state that belongs to the property whatever command touched it
+                ci, cm = canon.canon_op(oi), canon.canon_op(om)
+                a, b = P[pid]["st_any"](ci[2]), P[pid]["st_any"](cm[2])
+                if a != b:
+                    sa, sb = set(a), set(b)
+                    r.in_fp = True
+                    r.diffs = [("state", sorted(sa - sb), sorted(sb - sa))]
             if not r.in_fp:
                 r.diffs = d
             return r
